@@ -50,6 +50,16 @@ SPLIT_ASSUME = [
     "generator expressions are lazy, order-preserving maps (Python semantics, assumed)",
 ]
 
+IO_ASSUME = [
+    "file system and wave module are library models (assumed): open(name,'rb').read() is the file content, "
+    "open(name,'wb').write(d) defines it; wave.open(name) yields the header's (framerate, sampwidth, nchannels) and frames; "
+    "ROUND-TRIP AXIOM: a wave file written with setframerate/setsampwidth/setnchannels(r,w,c) + writeframes(d) reads back (r,w,c,d)",
+    "format names / extensions are case-split over representatives {None, wav, wave, WAV, raw, RAW, ogg=other} x "
+    "{none, .wav, .wave, .WAV, .raw, .ogg}: bounded on strings",
+    "pydub code paths are outside the verified set (pydub absent); _WITH_PYDUB is treated as an arbitrary Boolean",
+    "str.format / os.path.exists / Path.exists are oracles (opaque result / arbitrary Boolean)",
+]
+
 REGISTRY = {
     "C01": {"module": "props.tokenizer", "units": ["lemmas", "process", "post_process", "iter_tokens"],
             "witness": "tok", "assumptions": TOK_ASSUME},
@@ -83,6 +93,21 @@ REGISTRY = {
                       {"module": "props.split", "units": ["split"]},
                       {"module": "props.readers", "units": ["fixed", "overlap_iter", "overlap_misc"]}],
             "witness": "tok", "assumptions": TOK_ASSUME + ["split(): the AudioReader / tokenizer constructors are used by contract"]},
+    "C09": {"parts": [{"module": "props.split", "units": ["split", "region_split"]},
+                      {"module": "props.iofuncs", "units": ["guess_format", "get_audio_parameters", "get_audio_source", "from_file", "loaders"]},
+                      {"module": "props.readers", "units": ["audioreader", "limiter", "fixed"], "include_all": True},
+                      {"module": "props.sources", "units": ["buffer_read", "file_read", "file_open"], "include_all": True}],
+            "witness": "api", "assumptions": SPLIT_ASSUME + IO_ASSUME + [
+                "'same audio, same result' is the modularity argument: split() and the framing are verified against the "
+                "source INTERFACE only, and every container kind is verified to build a source implementing that interface "
+                "over the same audio (C11); no cross-container execution is compared"]},
+    "C18": {"parts": [{"module": "props.iofuncs", "units": ["guess_format", "get_audio_parameters", "to_file", "region_save", "from_file",
+                                                              "loaders", "read_offline", "load"]},
+                      {"module": "props.sources", "units": ["buffer_read", "file_read", "file_open"], "include_all": True},
+                      {"module": "props.regions", "units": ["post_init"]}],
+            "witness": "api", "assumptions": IO_ASSUME + [
+                "numpy export: element [c][i] is the signed little-endian value of channel c of sample i -- proved as the "
+                "to_array contract in C07 (numpy axiomatised)"]},
     "C10": {"module": "props.readers", "units": ["limiter", "fixed", "overlap_iter", "overlap_misc", "audioreader"],
             "witness": "api", "assumptions": RD_ASSUME},
     "C19": {"module": "props.readers", "units": ["limiter", "overlap_iter", "overlap_misc", "recorder", "replay_lemma", "audioreader"],
